@@ -409,7 +409,23 @@ func advenfSpec(client string, seed uint64) (*quic.QUICSpec, error) {
 	}
 	d, _ := quic.VerifAdvEnfPopulate(nil)
 	hasCID := false
-	for i, tp := range q.TransportParameters {
+	// fixed order of the draws (the parrot's list is shuffled when the spec is built, and
+	// GREASE IDs are random: neither may influence which parameter gets which draw)
+	for _, id := range []uint64{0x01, 0x04, 0x05, 0x06, 0x07, 0x08, 0x09, 0x0e, 0x20} {
+		i := -1
+		for j, tp := range q.TransportParameters {
+			switch tp.(type) {
+			case tls.InitialMaxData, tls.InitialMaxStreamDataBidiLocal, tls.InitialMaxStreamDataBidiRemote, tls.InitialMaxStreamDataUni,
+				tls.InitialMaxStreamsBidi, tls.InitialMaxStreamsUni, tls.MaxIdleTimeout, tls.MaxDatagramFrameSize, tls.ActiveConnectionIDLimit:
+				if tp.ID() == id {
+					i = j
+				}
+			}
+		}
+		if i < 0 {
+			continue
+		}
+		tp := q.TransportParameters[i]
 		if !r.Chance(1, 3) {
 			if _, ok := tp.(tls.ActiveConnectionIDLimit); ok {
 				hasCID = true
